@@ -50,13 +50,34 @@ def project(force, nodes, labels, opts, U, lattice):
         return _project(force, nodes, labels, opts, U, True, True)
     except ValueError:
         big = max([abs(n.currentPos) for n in nodes] + [0])
-        if len(nodes) <= 30 and big <= 1500:
+        if (len(nodes) <= 30 and big <= 1500) or _small_products(nodes, opts):
             rec = _project(force, nodes, labels, opts, 200, True, False)
             rec["offlattice"] = 1
             return rec
         rec = _project(force, nodes, labels, opts, 1000, False, False)
         rec["offlattice"] = 1
         return rec
+
+
+def _small_products(nodes, opts):
+    """A single layer (algorithm none) whose pool-adjacent-violators products stay far inside 32 bits in units of 1/200 although it
+    has more than 30 items: the z-coordinates (target minus the sum of the gaps before it) are all small."""
+    try:
+        if (opts or {}).get("algorithm") != "none" or len(nodes) > 64:
+            return False
+        ns = Fraction((opts or {}).get("nodeSpacing", 3))
+        srt = sorted(nodes, key=lambda n: n.idealPos)
+        off = Fraction(0)
+        zmax = Fraction(0)
+        for i, n in enumerate(srt):
+            if i:
+                off += Fraction(srt[i - 1].width + n.width) / 2 + ns
+            zmax = max(zmax, abs(Fraction(n.idealPos) - off))
+        pmax = max(abs(Fraction(n.currentPos)) for n in nodes)
+        k = len(nodes)
+        return 2 * 200 * zmax * k * k < 10 ** 9 and 2 * 200 * (pmax + off) * k < 10 ** 9
+    except Exception:
+        return False
 
 
 def _project(force, nodes, labels, opts, U, lattice, exact):
@@ -577,15 +598,17 @@ def gen_offscreen(rng):
 def gen_centi(rng):
     """Values with two decimals (what a scale hands over is not on the half-unit lattice): exact in units of 1/200, so the
     optimum is still decided exactly.  Sizes stay inside the 32-bit envelope of the pool-adjacent-violators products."""
-    if rng.random() < 0.15:
-        # a long row in which every neighbouring pair is short of its gap by a hair (0.01 .. 0.05): each single merge changes the
-        # cost by less than 1e-4, the optimum spreads the whole row
-        n = rng.randint(40, 60)
+    if rng.random() < 0.2:
+        # a long row in which every neighbouring pair is short of its gap by a hair (0.01): each single merge changes the cost by
+        # less than 1e-4, the optimum spreads the whole row (by 0.3 at its ends: visible after rounding for some of the labels)
+        n = rng.randint(52, 64)
         w = rng.choice([10, 12.5])
         ns = rng.choice([3, 0, 1.01])
-        short = rng.choice([0.01, 0.02, 0.05])
-        x0 = rng.choice([0, 37.13])
-        labels = [[round(x0 + i * (w + ns - short), 2), w] for i in range(n)]
+        # (the solver merges one constraint per pass; the third pass changes the cost by 1.5 * short^2, which is below 1e-4 only
+        #  for a shortfall under 0.008: 0.005 is one unit of this lattice)
+        short = rng.choice([0.005, 0.005, 0.01])
+        x0 = rng.choice([37.13, 0.29, 5.67, 81.41, 12.345])
+        labels = [[round(x0 + i * (w + ns - short), 3), w] for i in range(n)]
         return {"labels": labels, "opts": {"nodeSpacing": ns, "algorithm": "none", "density": 1, "stubWidth": 1,
                                            "minPos": rng.choice([None, None, -50.5]), "maxPos": None}}
     n = rng.randint(1, 26)
